@@ -93,8 +93,12 @@ func genEth() *routerCase {
 	g1 := ethRoot(5_000_000, "c19-root-1")
 	g2 := ethRoot(5_000_100, "c19-root-2")
 	h := ethChild(g1, 10, "c19-child")
+	g0 := ethRoot(0, "c19-root-0")
+	h0 := ethChild(g0, 10, "c19-child-0")
 	return &routerCase{name: "eth", router: utils.ETH_ROUTER, ccmc: []byte{1, 2, 3},
 		g1: mustJSON(*g1), g2: mustJSON(*g2), hdr: [][]byte{mustJSON(*h)},
+		g0: mustJSON(*g0), g0Note: "Number 0", hdr0: [][]byte{mustJSON(*h0)}, hdr0Note: "block 1 on top of G0",
+		gzNote:  "none: every JSON field of an eth header is required; G0 is the boundary genesis",
 		hdrNote: "child of G1 obeying every ETH header rule (ethash seal skipped by verifhook.SkipSealFlag)"}
 }
 
@@ -155,6 +159,8 @@ func posaChildE(p *eth.Header, val ethKey, sealHash func(*eth.Header) ecommon.Ha
 	return h
 }
 
+const posaG0Note = "Number 0 (the handler only requires PrevValidators[0].Height < Number: -1)"
+const posaGzNote = "none: the handler rejects an empty validator list; G0 is the boundary genesis"
 const posaNote = "child of G1 signed (real secp256k1 seal) by the single in-turn validator of G1"
 
 func genBsc() *routerCase {
@@ -164,8 +170,13 @@ func genBsc() *routerCase {
 	g1 := bsc.GenesisHeader{Header: r1, PrevValidators: []bsc.HeightAndValidators{{Height: big.NewInt(800), Validators: []ecommon.Address{v1.addr}}}}
 	g2 := bsc.GenesisHeader{Header: r2, PrevValidators: []bsc.HeightAndValidators{{Height: big.NewInt(1800), Validators: []ecommon.Address{v2.addr}}}}
 	h := posaChildT(&r1, v1, func(x *types.Header) ecommon.Hash { return bsc.SealHash(x, cid) })
+	v0 := ethKeyOf(101)
+	r0 := posaRootT(0, v0)
+	g0 := bsc.GenesisHeader{Header: r0, PrevValidators: []bsc.HeightAndValidators{{Height: big.NewInt(-1), Validators: []ecommon.Address{v0.addr}}}}
+	h0 := posaChildT(&r0, v0, func(x *types.Header) ecommon.Hash { return bsc.SealHash(x, cid) })
 	return &routerCase{name: "bsc", router: utils.BSC_ROUTER, ccmc: []byte{1, 2, 3}, extra: mustJSON(bsc.ExtraInfo{ChainID: cid}),
-		g1: mustJSON(g1), g2: mustJSON(g2), hdr: [][]byte{mustJSON(h)}, hdrNote: posaNote}
+		g1: mustJSON(g1), g2: mustJSON(g2), hdr: [][]byte{mustJSON(h)}, hdrNote: posaNote,
+		g0: mustJSON(g0), g0Note: posaG0Note, hdr0: [][]byte{mustJSON(h0)}, hdr0Note: "block 1 sealed by G0's validator", gzNote: posaGzNote}
 }
 
 func genBytom() *routerCase {
@@ -175,8 +186,13 @@ func genBytom() *routerCase {
 	g1 := bytom.GenesisHeader{Header: r1, PrevValidators: []bytom.HeightAndValidators{{Height: big.NewInt(800), Validators: []ecommon.Address{v1.addr}}}}
 	g2 := bytom.GenesisHeader{Header: r2, PrevValidators: []bytom.HeightAndValidators{{Height: big.NewInt(1800), Validators: []ecommon.Address{v2.addr}}}}
 	h := posaChildT(&r1, v1, func(x *types.Header) ecommon.Hash { return bytom.SealHash(x, cid) })
+	v0 := ethKeyOf(103)
+	r0 := posaRootT(0, v0)
+	g0 := bytom.GenesisHeader{Header: r0, PrevValidators: []bytom.HeightAndValidators{{Height: big.NewInt(-1), Validators: []ecommon.Address{v0.addr}}}}
+	h0 := posaChildT(&r0, v0, func(x *types.Header) ecommon.Hash { return bytom.SealHash(x, cid) })
 	return &routerCase{name: "bytom", router: utils.BYTOM_ROUTER, ccmc: []byte{1, 2, 3}, extra: mustJSON(bytom.ExtraInfo{ChainID: cid}),
-		g1: mustJSON(g1), g2: mustJSON(g2), hdr: [][]byte{mustJSON(h)}, hdrNote: posaNote}
+		g1: mustJSON(g1), g2: mustJSON(g2), hdr: [][]byte{mustJSON(h)}, hdrNote: posaNote,
+		g0: mustJSON(g0), g0Note: posaG0Note, hdr0: [][]byte{mustJSON(h0)}, hdr0Note: "block 1 sealed by G0's validator", gzNote: posaGzNote}
 }
 
 func genHeco() *routerCase {
@@ -186,8 +202,13 @@ func genHeco() *routerCase {
 	g1 := heco.GenesisHeader{Header: r1, PrevValidators: []heco.HeightAndValidators{{Height: big.NewInt(800), Validators: []ecommon.Address{v1.addr}}}}
 	g2 := heco.GenesisHeader{Header: r2, PrevValidators: []heco.HeightAndValidators{{Height: big.NewInt(1800), Validators: []ecommon.Address{v2.addr}}}}
 	h := posaChildE(&r1, v1, func(x *eth.Header) ecommon.Hash { return heco.SealHash(x, cid) })
+	v0 := ethKeyOf(105)
+	r0 := posaRootE(0, v0)
+	g0 := heco.GenesisHeader{Header: r0, PrevValidators: []heco.HeightAndValidators{{Height: big.NewInt(-1), Validators: []ecommon.Address{v0.addr}}}}
+	h0 := posaChildE(&r0, v0, func(x *eth.Header) ecommon.Hash { return heco.SealHash(x, cid) })
 	return &routerCase{name: "heco", router: utils.HECO_ROUTER, ccmc: []byte{1, 2, 3}, extra: mustJSON(heco.ExtraInfo{ChainID: cid, Period: 3}),
-		g1: mustJSON(g1), g2: mustJSON(g2), hdr: [][]byte{mustJSON(h)}, hdrNote: posaNote}
+		g1: mustJSON(g1), g2: mustJSON(g2), hdr: [][]byte{mustJSON(h)}, hdrNote: posaNote,
+		g0: mustJSON(g0), g0Note: posaG0Note, hdr0: [][]byte{mustJSON(h0)}, hdr0Note: "block 1 sealed by G0's validator", gzNote: posaGzNote}
 }
 
 func genHsc() *routerCase {
@@ -197,8 +218,13 @@ func genHsc() *routerCase {
 	g1 := hsc.GenesisHeader{Header: r1, PrevValidators: []hsc.HeightAndValidators{{Height: big.NewInt(800), Validators: []ecommon.Address{v1.addr}}}}
 	g2 := hsc.GenesisHeader{Header: r2, PrevValidators: []hsc.HeightAndValidators{{Height: big.NewInt(1800), Validators: []ecommon.Address{v2.addr}}}}
 	h := posaChildE(&r1, v1, func(x *eth.Header) ecommon.Hash { return hsc.SealHash(x, cid) })
+	v0 := ethKeyOf(107)
+	r0 := posaRootE(0, v0)
+	g0 := hsc.GenesisHeader{Header: r0, PrevValidators: []hsc.HeightAndValidators{{Height: big.NewInt(-1), Validators: []ecommon.Address{v0.addr}}}}
+	h0 := posaChildE(&r0, v0, func(x *eth.Header) ecommon.Hash { return hsc.SealHash(x, cid) })
 	return &routerCase{name: "hsc", router: utils.HSC_ROUTER, ccmc: []byte{1, 2, 3}, extra: mustJSON(hsc.ExtraInfo{ChainID: cid, Period: 3}),
-		g1: mustJSON(g1), g2: mustJSON(g2), hdr: [][]byte{mustJSON(h)}, hdrNote: posaNote}
+		g1: mustJSON(g1), g2: mustJSON(g2), hdr: [][]byte{mustJSON(h)}, hdrNote: posaNote,
+		g0: mustJSON(g0), g0Note: posaG0Note, hdr0: [][]byte{mustJSON(h0)}, hdr0Note: "block 1 sealed by G0's validator", gzNote: posaGzNote}
 }
 
 func genPixie() *routerCase {
@@ -208,8 +234,13 @@ func genPixie() *routerCase {
 	g1 := pixiechain.GenesisHeader{Header: r1, PrevValidators: []pixiechain.HeightAndValidators{{Height: big.NewInt(800), Validators: []ecommon.Address{v1.addr}}}}
 	g2 := pixiechain.GenesisHeader{Header: r2, PrevValidators: []pixiechain.HeightAndValidators{{Height: big.NewInt(1800), Validators: []ecommon.Address{v2.addr}}}}
 	h := posaChildE(&r1, v1, func(x *eth.Header) ecommon.Hash { return pixiechain.SealHash(x, cid) })
+	v0 := ethKeyOf(109)
+	r0 := posaRootE(0, v0)
+	g0 := pixiechain.GenesisHeader{Header: r0, PrevValidators: []pixiechain.HeightAndValidators{{Height: big.NewInt(-1), Validators: []ecommon.Address{v0.addr}}}}
+	h0 := posaChildE(&r0, v0, func(x *eth.Header) ecommon.Hash { return pixiechain.SealHash(x, cid) })
 	return &routerCase{name: "pixiechain", router: utils.PIXIECHAIN_ROUTER, ccmc: []byte{1, 2, 3}, extra: mustJSON(pixiechain.ExtraInfo{ChainID: cid, Period: 3}),
-		g1: mustJSON(g1), g2: mustJSON(g2), hdr: [][]byte{mustJSON(h)}, hdrNote: posaNote}
+		g1: mustJSON(g1), g2: mustJSON(g2), hdr: [][]byte{mustJSON(h)}, hdrNote: posaNote,
+		g0: mustJSON(g0), g0Note: posaG0Note, hdr0: [][]byte{mustJSON(h0)}, hdr0Note: "block 1 sealed by G0's validator", gzNote: posaGzNote}
 }
 
 // ---------------------------------------------------------------------------------------------
@@ -229,10 +260,17 @@ func genMsc() *routerCase {
 	h := types.Header{ParentHash: g1.Hash(), UncleHash: uncleHash, TxHash: types.EmptyRootHash, ReceiptHash: types.EmptyRootHash,
 		Difficulty: big.NewInt(2), Number: big.NewInt(2*epoch + 1), GasLimit: g1.GasLimit, Time: g1.Time + 3, Extra: posaExtra(nil)}
 	signInto(h.Extra, clique.SealHash(&h), v1)
+	v0 := ethKeyOf(111)
+	g0 := mk(0, v0)
+	h0 := types.Header{ParentHash: g0.Hash(), UncleHash: uncleHash, TxHash: types.EmptyRootHash, ReceiptHash: types.EmptyRootHash,
+		Difficulty: big.NewInt(2), Number: big.NewInt(1), GasLimit: g0.GasLimit, Time: g0.Time + 3, Extra: posaExtra(nil)}
+	signInto(h0.Extra, clique.SealHash(&h0), v0)
 	return &routerCase{name: "msc", router: utils.MSC_ROUTER, ccmc: []byte{1, 2, 3},
 		extra: mustJSON(msc.ExtraInfo{ChainID: big.NewInt(77), Period: 3, Epoch: epoch}),
 		g1:    mustJSON(g1), g2: mustJSON(g2), hdr: [][]byte{mustJSON(h)},
-		hdrNote: "child of the epoch header G1 with a real clique seal of G1's single signer"}
+		hdrNote: "child of the epoch header G1 with a real clique seal of G1's single signer",
+		g0:      mustJSON(g0), g0Note: "Number 0 (0 % Epoch == 0)", hdr0: [][]byte{mustJSON(h0)}, hdr0Note: "block 1 with a clique seal of G0's signer",
+		gzNote: "none: the handler rejects an empty signer list; G0 is the boundary genesis"}
 }
 
 // ---------------------------------------------------------------------------------------------
@@ -254,37 +292,29 @@ func setIstanbul(h *types.Header, x *quorum.IstanbulExtra) {
 	h.Extra = append(make([]byte, quorum.IstanbulExtraVanity), p...)
 }
 
-func genQuorum() *routerCase {
-	ks := []ethKey{ethKeyOf(20), ethKeyOf(21), ethKeyOf(22), ethKeyOf(23), ethKeyOf(24)}
-	addrs := func(idx ...int) []ecommon.Address {
-		var o []ecommon.Address
-		for _, i := range idx {
-			o = append(o, ks[i].addr)
-		}
-		return o
+// istanbulEpoch: header `number` on top of parent whose validator list is `keys` (one more than the parent's),
+// proposer seal of keys[0] and committed seals of every key.
+func istanbulEpoch(parent *types.Header, number uint64, keys []ethKey) *types.Header {
+	var vals []ecommon.Address
+	for _, k := range keys {
+		vals = append(vals, k.addr)
 	}
-	g1 := istanbulHeader(100, addrs(0, 1, 2, 3))
-	g2 := istanbulHeader(200, addrs(1, 2, 3, 4))
-	// epoch header: validator 4 appended (the handler requires the set length to change by exactly one), sealed by the new set
-	newVals := addrs(0, 1, 2, 3, 4)
-	signers := []ethKey{ks[0], ks[1], ks[2], ks[3], ks[4]}
-	h := istanbulHeader(101, newVals)
-	h.ParentHash = g1.Hash()
-	x := &quorum.IstanbulExtra{Validators: newVals, Seal: []byte{}, CommittedSeal: [][]byte{}}
+	h := istanbulHeader(number, vals)
+	h.ParentHash = parent.Hash()
+	x := &quorum.IstanbulExtra{Validators: vals, Seal: []byte{}, CommittedSeal: [][]byte{}}
 	// proposer seal over sigHash (header with empty seal and committed seals)
-	filtered := quorum.IstanbulFilteredHeader(h, false)
-	fb, err := rlp.EncodeToBytes(filtered)
+	fb, err := rlp.EncodeToBytes(quorum.IstanbulFilteredHeader(h, false))
 	if err != nil {
 		panic(err)
 	}
-	ps, err := crypto.Sign(crypto.Keccak256(crypto.Keccak256(fb)), signers[0].priv)
+	ps, err := crypto.Sign(crypto.Keccak256(crypto.Keccak256(fb)), keys[0].priv)
 	if err != nil {
 		panic(err)
 	}
 	x.Seal = ps
 	setIstanbul(h, x)
 	hash := quorum.GetQuorumHeaderHash(h)
-	for _, k := range signers {
+	for _, k := range keys {
 		cs, err := crypto.Sign(crypto.Keccak256(quorum.PrepareCommittedSeal(hash)), k.priv)
 		if err != nil {
 			panic(err)
@@ -292,9 +322,31 @@ func genQuorum() *routerCase {
 		x.CommittedSeal = append(x.CommittedSeal, cs)
 	}
 	setIstanbul(h, x)
+	return h
+}
+
+func genQuorum() *routerCase {
+	ks := []ethKey{ethKeyOf(20), ethKeyOf(21), ethKeyOf(22), ethKeyOf(23), ethKeyOf(24)}
+	k0 := []ethKey{ethKeyOf(120), ethKeyOf(121), ethKeyOf(122), ethKeyOf(123), ethKeyOf(124)}
+	addrs := func(from []ethKey, idx ...int) []ecommon.Address {
+		var o []ecommon.Address
+		for _, i := range idx {
+			o = append(o, from[i].addr)
+		}
+		return o
+	}
+	g1 := istanbulHeader(100, addrs(ks, 0, 1, 2, 3))
+	g2 := istanbulHeader(200, addrs(ks, 1, 2, 3, 4))
+	// epoch header: validator 4 appended (the handler requires the set length to change by exactly one), sealed by the new set
+	h := istanbulEpoch(g1, 101, ks)
+	g0 := istanbulHeader(0, addrs(k0, 0, 1, 2, 3))
+	h0 := istanbulEpoch(g0, 1, k0)
+	gz := istanbulHeader(300, nil)
 	return &routerCase{name: "quorum", router: utils.QUORUM_ROUTER, ccmc: []byte{1, 2, 3},
 		g1: mustJSON(g1), g2: mustJSON(g2), hdr: [][]byte{mustJSON(h)},
-		hdrNote: "istanbul epoch header adding a fifth validator to G1's four, proposer seal + 5 committed seals of the new set"}
+		hdrNote: "istanbul epoch header adding a fifth validator to G1's four, proposer seal + 5 committed seals of the new set",
+		g0:      mustJSON(g0), g0Note: "Number 0", hdr0: [][]byte{mustJSON(h0)}, hdr0Note: "epoch header number 1 adding a fifth validator to G0's four",
+		gz: mustJSON(gz), gzNote: "EMPTY validator list at number 300 (accepted by the handler: stores a zero-length validator set)"}
 }
 
 // ---------------------------------------------------------------------------------------------
@@ -309,8 +361,10 @@ func genBor(heimdallChain uint64) *routerCase {
 			ValidatorSet: &polygon.ValidatorSet{Validators: []*polygon.Validator{val}, Proposer: val}}}
 	}
 	g1, g2 := mk(6400, ethKeyOf(30)), mk(12800, ethKeyOf(31))
+	g0 := mk(0, ethKeyOf(130))
 	return &routerCase{name: "polygon-bor", router: utils.POLYGON_BOR_ROUTER, ccmc: []byte{1, 2, 3},
 		extra: mustJSON(polygon.ExtraInfo{Sprint: 64, Period: 2, ProducerDelay: 6, BackupMultiplier: 2, HeimdallPolyChainID: heimdallChain}),
 		g1:    mustJSON(g1), g2: mustJSON(g2),
+		g0: mustJSON(g0), g0Note: "Number 0", hdr0Note: "none (no bor header event at all)", gzNote: "none: G0 is the boundary genesis",
 		hdrNote: "no header event: a bor header at a sprint end needs a heimdall span + merkle proof against a synced heimdall header"}
 }
